@@ -216,13 +216,16 @@ func C07(r *ck.Run) {
 	if r.Thorough() {
 		maxSet = 6
 	}
-	r.Rule(fmt.Sprintf("every subset of size <= %d of a 12-key universe chosen for order traps (siblings sorting before '/', explicit directory objects, nested prefixes, keys that are prefixes of others) built with real PutObject calls (followed by two refused uploads below new directories and a delete of a missing key, which must leave no trace) × every prefix of every key (+1 non-matching) × delimiter {none,'/','b','-','a/'} × (full listing, pagination walks with max-keys 1,2,3 following the returned markers, every start position from a menu, max-keys 0) through posix ListObjects and ListObjectsV2; distinct = (set, prefix, delimiter, mode, start, api)", maxSet))
+	r.Rule(fmt.Sprintf("every subset of size <= %d of a 12-key universe chosen for order traps (siblings sorting before '/', explicit directory objects, nested prefixes, keys that are prefixes of others) built with real PutObject calls (followed by two refused uploads below new directories and a delete of a missing key, which must leave no trace) × every prefix of every key (+1 non-matching) × delimiter {none,'/','b','-','a/'} × (full listing, pagination walks with max-keys 1,2,3 following the returned markers, every start position from a menu, max-keys 0) through posix ListObjects and ListObjectsV2; plus keys that carry the temp directory's name below the top level (stored, so listed); distinct = (set, prefix, delimiter, mode, start, api)", maxSet))
 	r.Assume("a start position strictly inside a common prefix may or may not repeat that prefix; everything else follows the S3 listing rules exactly")
 	subsets := subsetsUpTo(len(c07Universe), maxSet)
 	delims := []string{"", "/", "b", "-", "a/"}
 	r.Sharded(16, func() {
 		st := newPxStore("c07", pxCfg{})
 		defer st.Close()
+		if r.ShardI <= 0 {
+			c07TmpNames(r, st)
+		}
 		for si, sub := range subsets {
 			if !r.Mine(si) {
 				continue
@@ -507,6 +510,42 @@ func C07(r *ck.Run) {
 			}
 		}
 	})
+}
+
+// c07TmpNames: the gateway's temp directory is a name only at the top level of a bucket; keys that carry that name
+// deeper down are ordinary keys and are listed like any other.
+func c07TmpNames(r *ck.Run, st *pxStore) {
+	keys := []string{"a/.sgwtmp/x", "a/b", "a/.sgwtmp.txt", "z/y/.sgwtmp/multipart/k", "top"}
+	st.wipe()
+	st.mkBucket("lb")
+	for i, k := range keys {
+		if err := st.put(st.A, "lb", k, wval{Body: Pattern(3+i, byte(i)), CT: "text/plain", Meta: "m"}); err != nil {
+			// a gateway may refuse such keys outright; what it stores it must list
+			keys = append(keys[:i:i], keys[i+1:]...)
+			r.Outcome("tmp-name-key-refused")
+		}
+	}
+	for _, api := range []string{"v1", "v2"} {
+		l := c07Lister{st, api}
+		for _, prefix := range []string{"", "a/", "a/.sgwtmp/", "z/"} {
+			for _, delim := range []string{"", "/"} {
+				want := refList(keys, prefix, delim)
+				pg := l.list("lb", prefix, delim, "", 1000)
+				r.Add("evaluations", 1)
+				r.Distinct(fmt.Sprintf("tmp-names|%s|%s|%s", prefix, delim, api))
+				got := map[string]bool{}
+				for _, e := range pg.Entries {
+					got[e.Name] = true
+				}
+				for _, e := range want {
+					if !got[e.Name] {
+						r.Violation(ck.JoinSig("temp-directory-name-below-top-level", "stored-key-not-listed", delimClass(delim)), map[string]any{"keys": keys, "prefix": prefix, "delimiter": delim, "api": api, "expected": fmtEntries(want), "listed": fmtEntries(pg.Entries), "error": pg.Err})
+						break
+					}
+				}
+			}
+		}
+	}
 }
 
 func fmtEntries(es []lentry) string {
